@@ -310,16 +310,21 @@ func (r *c10Run) exec(i int, s Step) {
 		before := r.ownerView()
 		who := []immutable.Option[identity.Identity]{some(r.stranger), anon, some(r.reader)}[mod(s.B, 3)]
 		whoName := []string{"stranger", "anonymous", "reader"}[mod(s.B, 3)]
-		for _, q := range []string{
-			fmt.Sprintf(`mutation { update_User(docID: %q, input: {age: 99}) { _docID } }`, docID),
-			`mutation { update_User(filter: {age: {_ge: 0}}, input: {team: "hacked"}) { _docID } }`,
-			fmt.Sprintf(`mutation { delete_User(docID: %q) { _docID } }`, docID),
-		} {
-			r.real.GQLAs(who, q)
-		}
+		r.real.GQLAs(who, fmt.Sprintf(`mutation { update_User(docID: %q, input: {age: 99}) { _docID } }`, docID))
+		r.real.GQLAs(who, fmt.Sprintf(`mutation { delete_User(docID: %q) { _docID } }`, docID))
+		// a filtered update legitimately touches the public documents
+		fq := `mutation { update_User(filter: {age: {_ge: 0}}, input: {team: "hacked"}) { _docID } }`
+		_, ferrs := r.real.GQLAs(who, fq)
 		synctest.Wait()
-		// the filtered update legitimately touches public documents: mirror it on the twin and compare private ones only
-		r.pub.GQLAs(who, `mutation { update_User(filter: {age: {_ge: 0}}, input: {team: "hacked"}) { _docID } }`)
+		if len(ferrs) == 0 {
+			r.pub.GQLAs(who, fq)
+		} else if whoName != "reader" {
+			// a requester that cannot even read the private documents must get what it would get without them
+			if _, terrs := r.pub.GQLAs(who, fq); len(terrs) == 0 {
+				r.res.violate("C10", "differs-from-never-contained", "filtered-update/"+whoName, r.step, "%s as %s fails on the real node (%v) but succeeds on the database that never contained the private documents", fq, whoName, ferrs)
+				return
+			}
+		}
 		after := r.ownerView()
 		for id, d := range r.docs {
 			if d.private && before[id] != after[id] {
